@@ -2,10 +2,12 @@ import PauLieVerif.Model.CmdPS
 import PauLieVerif.Model.CmdGraph
 import PauLieVerif.Model.CmdClassify
 import PauLieVerif.Model.CmdCollection
+import PauLieVerif.Model.CmdOptimise
+import PauLieVerif.Model.CmdOtoc
 
 open PauLie
 
-def handlers : List (String → Option String) := [CmdPS.handle, CmdGraph.handle, CmdClassify.handle, CmdCollection.handle]
+def handlers : List (String → Option String) := [CmdPS.handle, CmdGraph.handle, CmdClassify.handle, CmdCollection.handle, CmdOptimise.handle, CmdOtoc.handle]
 
 def respond (line : String) : String :=
   match handlers.findSome? (fun h => h line) with
